@@ -260,6 +260,64 @@ func c04(r *report.Run) {
 	})
 	order += int64(len(prefixes))
 	r.Set("literal_prefixes", len(prefixes))
+	// (a') all strings of <= 4 RUNES over an alphabet with 2-, 3- and 4-byte runes next to the characters that start
+	// numbers, strings and operators (look-ahead and push-back over multi-byte runes)
+	runeAlpha := []rune{'1', '.', 'e', 'x', '_', 'a', '"', '\\', '+', '!', '(', ' ', 'é', '€', '😀', '\u00a0'}
+	maxR := 4
+	if r.Tier == "thorough" {
+		maxR = 5
+	}
+	for L := 1; L <= maxR; L++ {
+		total := 1
+		for i := 0; i < L; i++ {
+			total *= len(runeAlpha)
+		}
+		base := order
+		par.ForW(total, func(w, i int) {
+			b := make([]rune, L)
+			x := i
+			for k := L - 1; k >= 0; k-- {
+				b[k] = runeAlpha[x%len(runeAlpha)]
+				x /= len(runeAlpha)
+			}
+			src := string(b)
+			guard.Enter(w, fmt.Sprintf("runes %q", src))
+			defer guard.Leave(w)
+			atomic.AddInt64(&evals, 3)
+			if kind, what := c04All(src, full, []expr.Option{expr.Env(henv.Env{})}); kind != "" {
+				rep("runes", kind, fmt.Sprintf("%q", src), what, base+int64(i), src)
+			}
+		})
+		order += int64(total)
+	}
+	// (a'') one token of every length 1..400 (ASCII, 2-, 3- and 4-byte letters) in positions where the error message quotes it
+	var longs []string
+	for _, unit := range []string{"a", "ж", "日", "😀"} {
+		for n := 1; n <= 400; n++ {
+			tok := strings.Repeat(unit, n)
+			if unit == "😀" {
+				longs = append(longs, "1 \""+tok+"\"", "{\""+tok+"\" 1}", "S matches \"("+tok+"\"")
+				continue
+			}
+			longs = append(longs, "1 "+tok, "1 \""+tok+"\"", "{"+tok+"+: 1}", "S matches \"("+tok+"\"", tok+"."+tok+"(", "I."+tok)
+		}
+	}
+	base = order
+	par.ForW(len(longs), func(w, i int) {
+		src := longs[i]
+		guard.Enter(w, fmt.Sprintf("long token %d", i))
+		defer guard.Leave(w)
+		atomic.AddInt64(&evals, 3)
+		if kind, what := c04All(src, full, []expr.Option{expr.Env(henv.Env{})}); kind != "" {
+			w := src
+			if len(w) > 40 {
+				w = w[:40] + "..."
+			}
+			rep("long-token", kind, fmt.Sprintf("%q x%d runes", w, len([]rune(src))), what, base+int64(i), src)
+		}
+	})
+	order += int64(len(longs))
+	r.Set("long_token_sources", len(longs))
 	r.Set("byte_string_length_completed", maxLen)
 	// (b) token sequences
 	toks := []string{"a", "I", "A", "O", "1", `"s"`, "nil", "not", "-", "*", "and", "==", "in", "..", "?", ":", "(", ")", ".", "?.", "[", "]", ",", "{", "}", "#", "all", "len", "Id", "N"}
